@@ -149,6 +149,34 @@ theorem sim_history_drop_dates (inp : Inputs) (start : Sched.Date) (hcal : ∀ n
   rw [List.getElem_drop]
   exact sim_history_dates inp start hcal N ds hd (a + i) hi'
 
+/-- **C06 "all of them when feasible" in the integrated simulation**: if year `y` is the block of simulated
+days from index `a` to the end of the horizon, every day so far was feasible (crews suffice, weather
+permits) and the planner's plan dates are simulated days of that block, then the mobile method has completed
+exactly the required number of surveys of site `i` in year `y` — the calendar side conditions (`Pairwise mdLt`)
+are discharged by the computed calendar -/
+theorem sim_all_done_when_feasible (w : World) (prog : Program) (inp : Inputs) (start : Sched.Date)
+    (hv : validDate start) (hcal : ∀ n, inp.date n = dateOf start n) (m : Nat) (c : MethodCfg)
+    (hc : prog[m]? = some c) (hr : c.role ≠ .followUp) (hnd : (schedCfg c).sites.Nodup)
+    (hk : (schedCfg c).kind = .routine) (N : Nat) :
+    ∃ ds : List Sched.DayIn, ds.map (·.date) = (List.range N).map inp.date ∧
+      ∀ (a i y : Nat), i ∈ (schedCfg c).sites →
+        (y ∈ ((schedCfg c).P i).depYears ∧ y ∈ ((schedCfg c).P i).simYears) →
+        (∀ d ∈ ds, Sched.Feasible (schedCfg c) d) →
+        (∀ d ∈ ds.take a, d.date.y ≠ y) → (∀ d ∈ ds.drop a, d.date.y = y) →
+        ((schedCfg c).P i).plan.length = ((schedCfg c).P i).rs → ((schedCfg c).P i).plan.Pairwise Sched.mdLt →
+        (∀ pd ∈ ((schedCfg c).P i).plan, pd ∈ (ds.drop a).map Sched.md ∧ pd.1 ∈ ((schedCfg c).P i).months) →
+        Sched.done ((((simState w prog inp N).ms.getD m {}).sched).pl i) y = Sched.required ((schedCfg c).P i) y := by
+  obtain ⟨ds, hd, hs⟩ := sim_sched_runDays w prog inp m c hc hr N
+  refine ⟨ds, hd, ?_⟩
+  intro a i y his hy hf hpre hyr hlen hplan hin
+  rw [hs, ← List.take_append_drop a ds]
+  refine Sched.all_done_when_feasible (schedCfg c) hnd hk i his y hy (ds.take a) (ds.drop a) ?_ hpre hyr ?_ hlen hplan hin
+  · intro d hd'
+    rw [List.take_append_drop] at hd'
+    exact hf d hd'
+  · exact md_pairwise_of_calendar start hv a (ds.drop a)
+      (sim_history_drop_dates inp start hcal N ds hd a) y hyr
+
 /-- non-vacuity: the mobile OGI method of the example program of `Props/Sim.lean` meets the hypotheses of
 `sim_done_le_required` (mobile, not a follow-up method, distinct sites, a valid start date) -/
 example : (schedCfg exOGI).kind = .routine ∧ (schedCfg exOGI).sites.Nodup ∧ exOGI.role ≠ .followUp ∧
